@@ -31,6 +31,14 @@ CONFIGS = {
                                                         ("C2", "A", (9.0, 2.0, 3.0), 1.0)]},
     # two different atoms closer than 0.5 A: only the one of higher occupancy survives
     "clash": {"same_as": {2: 0}, "layout": [0, 1, 2], "atoms": [("N1", "C", (1.0, 2.0, 3.0), 0.7), ("C2", "C", (1.3, 2.0, 3.0), 0.3), ("N3", "C", (9.0, 2.0, 3.0), 1.0)]},
+    # three copies of one atom: the highest-occupancy copy is neither first nor last
+    "altloc-three": {"same_as": {1: 0, 2: 0, 3: 0}, "layout": [0, 1, 2, 3],
+                     "atoms": [("N1", "A", (1.0, 2.0, 3.0), 0.2), ("N1", "A", (5.0, 2.0, 3.0), 0.5), ("N1", "A", (9.0, 2.0, 3.0), 0.3), ("C2", "A", (13.0, 2.0, 3.0), 1.0)]},
+    # sparse concrete model numbers (default model = first in the file, not the first of some set order)
+    "two-models-sparse": {"layout": ["M0", 0, "E", "M1", 1, "E"], "concrete_models": [1, 8],
+                          "atoms": [("P", "G", (1.0, 2.0, 3.0), 1.0), ("P", "G", (21.0, 2.0, 3.0), 1.0)]},
+    "two-models-descending": {"layout": ["M0", 0, "E", "M1", 1, "E"], "concrete_models": [2, 1],
+                              "atoms": [("P", "G", (1.0, 2.0, 3.0), 1.0), ("P", "G", (21.0, 2.0, 3.0), 1.0)]},
     "no-model-records": {"layout": [0, 1], "atoms": [("P", "U", (1.0, 2.0, 3.0), 1.0), ("OP1", "U", (3.0, 2.0, 3.0), 1.0)]},
 }
 
@@ -61,6 +69,14 @@ def job_pdb(spec):
         fields.append(f)
     models = []
     for k in range(2):
+        if "concrete_models" in cfg:
+            from symx.engine import SInt as _SI
+            import z3 as _z3
+            val = cfg["concrete_models"][k]
+            n = _SI(eng, _z3.IntVal(val))
+            n.src = B.BStr.const(eng, str(val))
+            models.append((n, B.BStr.const(eng, str(val))))
+            continue
         n, b = B.int_field(eng, f"model{k}", 4, False)
         models.append((n, P.trim(b, 4)))
     req = eng.int("requested", 1, 9999) if req_kind == "sym" else None
@@ -211,8 +227,10 @@ def job_pdb(spec):
             mv = model_val(idxs[0])
             if mv is None:
                 neg.append(z3.BoolVal(r.model != 1))
+            elif isinstance(r.model, SInt):
+                neg.append(r.model.e != mv.e)
             else:
-                neg.append(r.model.e != mv.e if isinstance(r.model, SInt) else z3.BoolVal(True))
+                neg.append(z3.IntVal(int(r.model)) != mv.e)
         v, m, _ = eng.prove(path, z3.Or(neg))
         res["verdicts"].append({"ob": "a residue's chain / number / insertion code / name / model differs from what was written", "v": v,
                                 "key": "parser.read_3d_structure:fields-pdb", "w": wit(m)})
@@ -435,7 +453,8 @@ def run(rep, tier):
     from vlib.par import pmap, Crashed
     specs = [("pdb", ("two-models-far", "sym")), ("pdb", ("two-models-near", "sym")),
              ("pdb", ("altloc-low-high", "none")), ("pdb", ("clash", "none")),
-             ("pdb", ("no-model-records", "sym")), ("cif", "one-model"), ("cif", "two-models")]
+             ("pdb", ("no-model-records", "sym")), ("pdb", ("altloc-three", "none")), ("pdb", ("two-models-sparse", "none")),
+             ("pdb", ("two-models-descending", "none")), ("cif", "one-model"), ("cif", "two-models")]
     if tier != "quick":
         specs += [("pdb", ("two-models-two-atoms", "sym")), ("pdb", ("two-models-near", "none")), ("pdb", ("altloc-low-high", "sym")),
                   ("pdb", ("clash", "sym")), ("pdb", ("two-models-far", "none")), ("pdb", ("altloc-high-low", "none"))]
